@@ -31,6 +31,8 @@ type (
 	NBool  bool
 	AInt   = int
 	AStr   = NStr
+	APtr   = *int
+	AAny   = interface{}
 	NPtr   *int
 	NSl    []int
 	NArr   [2]int
@@ -74,6 +76,8 @@ var (
 	t_nbool      NBool
 	t_aint       AInt
 	t_astr       AStr
+	t_aptr       APtr
+	t_aany       AAny
 	t_nptr       NPtr
 	t_nsl        NSl
 	t_narr       NArr
@@ -112,7 +116,7 @@ var (
 
 // subset used by the quick tier (indices by variable name)
 var verifQuickTypes = []string{"t_bool", "t_int", "t_int8", "t_uint8", "t_uint64", "t_float32", "t_float64", "t_complex64", "t_string",
-	"t_nint", "t_nint8", "t_nf32", "t_nstr", "t_aint", "t_nptr", "t_nsl", "t_nst", "t_nif", "t_impl", "t_pint", "t_pimpl",
+	"t_nint", "t_nint8", "t_nf32", "t_nstr", "t_aint", "t_aptr", "t_aany", "t_nptr", "t_nsl", "t_nst", "t_nif", "t_impl", "t_pint", "t_pimpl",
 	"t_slint", "t_slint2", "t_arr2", "t_mapsi", "t_chan", "t_rchan", "t_fn", "t_st", "t_st2", "t_any", "t_err", "t_ifm"}
 
 type verifType struct {
@@ -223,7 +227,7 @@ func verifFloatFits(v constant.Value, f32 bool) bool {
 
 // targets of constant assignment: every basic kind plus representative named/composite/interface types
 var verifConstTargets = []string{"t_bool", "t_int", "t_int8", "t_int16", "t_int32", "t_int64", "t_uint", "t_uint8", "t_uint16", "t_uint32", "t_uint64", "t_uintptr",
-	"t_float32", "t_float64", "t_complex64", "t_complex128", "t_string", "t_nint8", "t_nuint8", "t_nf32", "t_nstr", "t_nbool", "t_aint", "t_pint", "t_slint", "t_mapsi", "t_chan", "t_fn", "t_st", "t_any", "t_err", "t_ifm", "t_unsafe"}
+	"t_float32", "t_float64", "t_complex64", "t_complex128", "t_string", "t_nint8", "t_nuint8", "t_nf32", "t_nstr", "t_nbool", "t_aint", "t_aptr", "t_aany", "t_pint", "t_slint", "t_mapsi", "t_chan", "t_fn", "t_st", "t_any", "t_err", "t_ifm", "t_unsafe"}
 
 func verifPickNamed(name string, all []verifType, names []string) verifType {
 	if vp.Thorough() {
